@@ -33,8 +33,21 @@ T_Append == IsEv("Append") /\ AppendNode(Ev.tok, Ev.res) /\ Obs
 T_Flush == IsEv("Flush") /\ Ev.res = "ok" /\ Flush /\ Obs
 T_Checkpoint == IsEv("Checkpoint") /\ Ev.res = "ok" /\ Checkpoint(Ev.obs.seq) /\ Obs
 T_Reopen == IsEv("Reopen") /\ Ev.res = "ok" /\ (\E trim \in BOOLEAN : Reopen(Ev.obs.seq, trim) /\ Obs)
-T_Truncate == IsEv("Truncate") /\ Ev.res = "ok" /\ (\E trim \in BOOLEAN : Truncate(Ev.b, Ev.obs.seq, trim) /\ Obs)
-T_Flip == IsEv("Flip") /\ Ev.res = "ok" /\ Flip(Ev.f, Ev.b, Ev.m) /\ Obs
+\* the byte offsets of a script are those of the model that generated it; where the real directory is laid
+\* out differently (another legal choice of the next sequence number) the harness reports the fault as
+\* "inapplicable": the crash then tears nothing, the flip does not happen
+T_Truncate ==
+    /\ IsEv("Truncate")
+    /\ \/ Ev.res = "ok" /\ (\E trim \in BOOLEAN : Truncate(Ev.b, Ev.obs.seq, trim) /\ Obs)
+       \/ /\ Ev.res = "inapplicable"
+          /\ files = <<>> \/ Ev.b > FileSize(files[Len(files)])
+          /\ \E trim \in BOOLEAN : Crash(Ev.obs.seq, trim) /\ Obs
+T_Flip ==
+    /\ IsEv("Flip")
+    /\ \/ Ev.res = "ok" /\ Flip(Ev.f, Ev.b, Ev.m) /\ Obs
+       \/ /\ Ev.res = "inapplicable"
+          /\ ~(Ev.f \in DOMAIN files /\ Ev.b < FileSize(files[Ev.f]))
+          /\ UNCHANGED wvars /\ Obs
 
 TNext == T_Fail \/ T_Reset \/ T_Append \/ T_Flush \/ T_Checkpoint \/ T_Reopen \/ T_Truncate \/ T_Flip
 TSpec == TInit /\ [][TNext]_tvars
